@@ -67,6 +67,149 @@ theorem attrLookup_mem (lang : Lang) (name value : Bytes) :
         · cases h
         · injection h with h _; subst h; exact ⟨attrs, rfl, hm⟩
 
+theorem encAttrGo_name (name value : Bytes) :
+    ∀ (rows : List AttrRow) (sc : AttrScan), (∀ r, sc.found = some r → r.name = name) →
+      ∀ r n, encAttrGo name value rows sc = some (r, n) → r.name = name := by
+  intro rows
+  induction rows with
+  | nil =>
+    intro sc hsc r n h
+    simp only [encAttrGo, Option.map_eq_some_iff] at h
+    obtain ⟨x, hx, he⟩ := h
+    injection he with he _
+    subst he; exact hsc x hx
+  | cons x xs ih =>
+    intro sc hsc r n h
+    simp only [encAttrGo] at h
+    split at h
+    · rename_i hxn
+      have hxn' : x.name = name := by simpa using hxn
+      split at h
+      · refine ih _ ?_ r n h
+        intro r' hr'
+        split at hr'
+        · simp only at hr'; injection hr' with hr'; subst hr'; exact hxn'
+        · exact hsc r' hr'
+      · split at h
+        · injection h with h; injection h with h1 _; subst h1; exact hxn'
+        · split at h
+          · refine ih _ ?_ r n h
+            intro r' hr'
+            simp only at hr'; injection hr' with hr'; subst hr'; exact hxn'
+          · exact ih _ hsc r n h
+    · exact ih _ hsc r n h
+
+theorem attrLookup_name (lang : Lang) (name value : Bytes) :
+    (∀ r, attrLookup lang name value = .exact r → r.name = name) ∧
+    (∀ r n, attrLookup lang name value = .part r n → r.name = name) := by
+  unfold attrLookup
+  cases ha : lang.attrs with
+  | none => exact ⟨fun r h => (by cases h), fun r n h => (by cases h)⟩
+  | some attrs =>
+    simp only
+    cases he : encAttr attrs name value with
+    | none => exact ⟨fun r h => (by cases h), fun r n h => (by cases h)⟩
+    | some p =>
+      obtain ⟨r0, n0⟩ := p
+      have hn : r0.name = name := encAttrGo_name name value attrs {} (by intro r h; cases h) r0 n0 he
+      simp only
+      constructor
+      · intro r h
+        split at h
+        · injection h with h; subst h; exact hn
+        · cases h
+      · intro r n h
+        split at h
+        · cases h
+        · injection h with h _; subst h; exact hn
+
+/-- Invariant of the scan in `wbxml_tables_get_attr_from_xml`: the best row so far covers `comp`
+    octets of the value, namely its own value prefix. -/
+def ScanOk (value : Bytes) (sc : AttrScan) : Prop :=
+  match sc.found with
+  | none => sc.comp = 0
+  | some r => sc.comp = (r.value.getD []).length ∧ (r.value.getD []) <+: value
+
+theorem encAttrGo_sem (name value : Bytes) :
+    ∀ (rows : List AttrRow) (sc : AttrScan), ScanOk value sc →
+      ∀ r n, encAttrGo name value rows sc = some (r, n) →
+        r.value = some value ∨ (n = (r.value.getD []).length ∧ (r.value.getD []) <+: value) := by
+  intro rows
+  induction rows with
+  | nil =>
+    intro sc hsc r n h
+    simp only [encAttrGo, Option.map_eq_some_iff] at h
+    obtain ⟨x, hx, he⟩ := h
+    injection he with h1 h2
+    subst h1
+    unfold ScanOk at hsc
+    rw [hx] at hsc
+    exact Or.inr ⟨h2 ▸ hsc.1, hsc.2⟩
+  | cons x xs ih =>
+    intro sc hsc r n h
+    simp only [encAttrGo] at h
+    split at h
+    · split at h
+      · rename_i hxv
+        refine ih _ ?_ r n h
+        split
+        · rename_i hnone
+          have hf : sc.found = none := by cases hfd : sc.found with
+            | none => rfl
+            | some _ => simp [hfd] at hnone
+          unfold ScanOk at hsc ⊢
+          rw [hf] at hsc
+          simp only [hxv, Option.getD_none, List.length_nil]
+          exact ⟨hsc, List.nil_prefix⟩
+        · exact hsc
+      · rename_i v hxv
+        split at h
+        · rename_i hveq
+          injection h with h; injection h with h1 _; subst h1
+          simp only [beq_iff_eq] at hveq
+          exact Or.inl (by rw [hxv, hveq])
+        · split at h
+          · rename_i hpre
+            refine ih _ ?_ r n h
+            simp only [Bool.and_eq_true, decide_eq_true_eq, Model.isPrefixOf] at hpre
+            unfold ScanOk
+            simp only [hxv, Option.getD_some]
+            exact ⟨trivial, List.isPrefixOf_iff_prefix.mp hpre.2⟩
+          · exact ih _ hsc r n h
+    · exact ih _ hsc r n h
+
+/-- What the look-up says about the value: an exact row's value prefix is the whole value; a
+    partial row covers exactly its own value prefix, which is a prefix of the value. -/
+theorem attrLookup_sem (lang : Lang) (name value : Bytes) :
+    (∀ r, attrLookup lang name value = .exact r → r.value = some value) ∧
+    (∀ r n, attrLookup lang name value = .part r n → n = (r.value.getD []).length ∧ (r.value.getD []) <+: value) := by
+  unfold attrLookup
+  cases ha : lang.attrs with
+  | none => exact ⟨fun r h => (by cases h), fun r n h => (by cases h)⟩
+  | some attrs =>
+    simp only
+    cases he : encAttr attrs name value with
+    | none => exact ⟨fun r h => (by cases h), fun r n h => (by cases h)⟩
+    | some p =>
+      obtain ⟨r0, n0⟩ := p
+      have hsem := encAttrGo_sem name value attrs {} (by unfold ScanOk; rfl) r0 n0 he
+      simp only
+      constructor
+      · intro r h
+        split at h
+        · rename_i hv
+          injection h with h; subst h
+          simpa using hv
+        · cases h
+      · intro r n h
+        split at h
+        · cases h
+        · rename_i hv
+          injection h with h1 h2; subst h1 h2
+          rcases hsem with hs | hs
+          · rw [hs] at hv; simp at hv
+          · exact hs
+
 /-! ### `wbxml_encode_attr_start` -/
 
 theorem attrTokenW_curAttr (token page : Nat) (st : WSt) : (attrTokenW token page st).curAttr = st.curAttr := by
@@ -74,37 +217,37 @@ theorem attrTokenW_curAttr (token page : Nat) (st : WSt) : (attrTokenW token pag
 
 /-- What an attribute start may be: a row of the attribute table under its own page, or a literal
     whose index is the offset of a string-table entry. The last argument is `current_attr`. -/
-inductive AStartOk (c : WCfg) (tbl : List StrEntry) (ap : Nat) : AStart → Option AttrRow → Prop
-  | tok (attrs : List AttrRow) (r : AttrRow) : c.lang.attrs = some attrs → r ∈ attrs →
-      AStartOk c tbl ap (.tok (swFor ap r.page) r.token) (some r)
-  | lit (off : Nat) : (∃ e ∈ tbl, e.offset = off) → AStartOk c tbl ap (.lit off) none
+inductive AStartOk (c : WCfg) (tbl : List StrEntry) (ap : Nat) (nm : Bytes) : AStart → Option AttrRow → Prop
+  | tok (attrs : List AttrRow) (r : AttrRow) : c.lang.attrs = some attrs → r ∈ attrs → r.name = nm →
+      AStartOk c tbl ap nm (.tok (swFor ap r.page) r.token) (some r)
+  | lit (off : Nat) : (∃ e ∈ tbl, e.offset = off ∧ e.str = nm) → AStartOk c tbl ap nm (.lit off) none
 
-structure AStartRes (c : WCfg) (st st' : WSt) (as : AStart) : Prop where
+structure AStartRes (c : WCfg) (nm : Bytes) (st st' : WSt) (as : AStart) : Prop where
   out : st'.out = st.out ++ serAStart as
   ap : ∀ ctx, st'.attrPage = (astartName ctx st.attrPage as).2.2
   tp : st'.tagPage = st.tagPage
   tbl : TblExt c st st'
-  ok : AStartOk c st'.strtbl st.attrPage as st'.curAttr
+  ok : AStartOk c st'.strtbl st.attrPage nm as st'.curAttr
 
 theorem attrTok_step (c : WCfg) (attrs : List AttrRow) (r : AttrRow) (ha : c.lang.attrs = some attrs)
-    (hr : r ∈ attrs) (st : WSt) :
-    AStartRes c st (attrTokenW r.token r.page { st with curAttr := some r })
+    (hr : r ∈ attrs) (nm : Bytes) (hn : r.name = nm) (st : WSt) :
+    AStartRes c nm st (attrTokenW r.token r.page { st with curAttr := some r })
       (.tok (swFor st.attrPage r.page) r.token) := by
   have ho := attrTokenW_out r.token r.page { st with curAttr := some r }
   have hf := attrTokenW_frame r.token r.page { st with curAttr := some r }
   refine ⟨?_, ?_, hf.1, TblExt.of_eq hf.2.1 hf.2.2, ?_⟩
   · rw [ho.1]; simp only [serAStart, byte]
   · intro ctx; rw [astartName_page, ho.2]; exact (swPage_swFor _ _).symm
-  · rw [attrTokenW_curAttr, hf.2.1]; exact .tok attrs r ha hr
+  · rw [attrTokenW_curAttr, hf.2.1]; exact .tok attrs r ha hr hn
 
 theorem attrLit_step (c : WCfg) (name : Bytes) (st st' : WSt)
     (h : attrLiteralW c name { st with curAttr := none } = .ok st') :
-    ∃ off, AStartRes c st st' (.lit off) := by
+    ∃ off, AStartRes c name st st' (.lit off) := by
   rw [attrLiteralW_eq] at h
   split at h
   · rename_i hu
     injection h with h; subst h
-    obtain ⟨e, he, ho, _⟩ := strtblAdd_idx { st with curAttr := none } name none
+    obtain ⟨e, he, ho, hstr⟩ := strtblAdd_idx { st with curAttr := none } name none
     refine ⟨(strtblAdd { st with curAttr := none } name none).2, ?_, ?_, ?_, ?_, ?_⟩
     · simp only [emit_out, strtblAdd_out, serAStart, mb]
     · intro ctx; simp only [emit_attrPage, strtblAdd_attrPage, astartName]
@@ -113,17 +256,18 @@ theorem attrLit_step (c : WCfg) (name : Bytes) (st st' : WSt)
       have t2 := TblExt.add c hu { st with curAttr := none } name
       exact t1.trans (t2.trans (TblExt.of_eq (emit_strtbl _ _) (emit_strtblLen _ _)))
     · simp only [emit_curAttr, strtblAdd_curAttr, emit_strtbl]
-      exact .lit _ ⟨e, he, ho⟩
+      exact .lit _ ⟨e, he, ho, hstr⟩
   · cases h
 
 theorem attrStartW_spec (c : WCfg) (a : Attr) (v : Bytes) (st st' : WSt) (rest : Option Bytes)
     (ha : attrOver c.lang a = true) (hv : nulFree v = true)
     (attrs : List AttrRow) (hattrs : c.lang.attrs = some attrs)
     (h : attrStartW c a v st = .ok (rest, st')) :
-    ∃ as, AStartRes c st st' as ∧ (∀ s, rest = some s → nulFree s = true ∧ s.length ≤ v.length) := by
+    ∃ as, AStartRes c a.name.cName st st' as ∧ (∀ s, rest = some s → nulFree s = true ∧ s.length ≤ v.length) := by
   unfold attrStartW at h
   cases hname : a.name with
   | token r =>
+    show ∃ as, AStartRes c r.name st st' as ∧ _
     have hr : r ∈ attrs := by
       simp only [attrOver, hname, hattrs, Bool.and_eq_true, List.contains_iff_mem] at ha
       exact ha.2
@@ -133,7 +277,7 @@ theorem attrStartW_spec (c : WCfg) (a : Attr) (v : Bytes) (st st' : WSt) (rest :
       simp only [hval] at h
       injection h with h; injection h with h1 h2
       subst h1 h2
-      exact ⟨_, attrTok_step c attrs r hattrs hr st, by intro s hs; injection hs with hs; subst hs; exact ⟨hv, Nat.le_refl _⟩⟩
+      exact ⟨_, attrTok_step c attrs r hattrs hr _ rfl st, by intro s hs; injection hs with hs; subst hs; exact ⟨hv, Nat.le_refl _⟩⟩
     | some p =>
       simp only [hval] at h
       split at h
@@ -144,12 +288,12 @@ theorem attrStartW_spec (c : WCfg) (a : Attr) (v : Bytes) (st st' : WSt) (rest :
             rw [hp] at h
             injection h with h; injection h with h1 h2
             subst h1 h2
-            refine ⟨_, attrTok_step c attrs r hattrs hr st, ?_⟩
+            refine ⟨_, attrTok_step c attrs r hattrs hr _ rfl st, ?_⟩
             intro s hs; injection hs with hs; subst hs
             rw [ptrAdd_ok hp]; exact ⟨nulFree_drop _ _ hv, by rw [List.length_drop]; omega⟩
         · injection h with h; injection h with h1 h2
           subst h1 h2
-          exact ⟨_, attrTok_step c attrs r hattrs hr st, by intro s hs; cases hs⟩
+          exact ⟨_, attrTok_step c attrs r hattrs hr _ rfl st, by intro s hs; cases hs⟩
       · cases hlit : attrLiteralW c r.name { st with curAttr := none } with
         | error e => rw [hlit] at h; cases h
         | ok st1 =>
@@ -159,8 +303,10 @@ theorem attrStartW_spec (c : WCfg) (a : Attr) (v : Bytes) (st st' : WSt) (rest :
           obtain ⟨off, hres⟩ := attrLit_step c r.name st st1 hlit
           exact ⟨_, hres, by intro s hs; injection hs with hs; subst hs; exact ⟨hv, Nat.le_refl _⟩⟩
   | literal s =>
+    show ∃ as, AStartRes c (cstrOf s) st st' as ∧ _
     simp only [hname] at h
     have hmem := attrLookup_mem c.lang (cstrOf s) v
+    have hnm := attrLookup_name c.lang (cstrOf s) v
     cases hhit : (if s.isEmpty then AttrHit.none else attrLookup c.lang (cstrOf s) v) with
     | none =>
       rw [hhit] at h
@@ -184,7 +330,7 @@ theorem attrStartW_spec (c : WCfg) (a : Attr) (v : Bytes) (st st' : WSt) (rest :
         · exact hhit
       obtain ⟨attrs', ha', hr⟩ := hmem.1 r hl
       rw [hattrs] at ha'; injection ha' with ha'; subst ha'
-      exact ⟨_, attrTok_step c attrs r hattrs hr st, by intro s hs; cases hs⟩
+      exact ⟨_, attrTok_step c attrs r hattrs hr _ (hnm.1 r hl) st, by intro s hs; cases hs⟩
     | part r comp =>
       rw [hhit] at h
       simp only at h
@@ -200,10 +346,96 @@ theorem attrStartW_spec (c : WCfg) (a : Attr) (v : Bytes) (st st' : WSt) (rest :
         rw [hp] at h
         injection h with h; injection h with h1 h2
         subst h1 h2
-        refine ⟨_, attrTok_step c attrs r hattrs hr st, ?_⟩
+        refine ⟨_, attrTok_step c attrs r hattrs hr _ (hnm.2 r comp hl) st, ?_⟩
         intro s hs; injection hs with hs; subst hs
         rw [ptrAdd_ok hp]; exact ⟨nulFree_drop _ _ hv, by rw [List.length_drop]; omega⟩
 
+
+/-- The value prefix an attribute start stands for (`current_attr` after the start). -/
+def preOf : Option AttrRow → Bytes
+  | some r => r.value.getD []
+  | none => []
+
+theorem attrLiteralW_curAttr (c : WCfg) (name : Bytes) (st st' : WSt)
+    (h : attrLiteralW c name { st with curAttr := none } = .ok st') : st'.curAttr = none := by
+  rw [attrLiteralW_eq] at h
+  split at h
+  · injection h with h; subst h
+    simp only [emit_curAttr, strtblAdd_curAttr]
+  · cases h
+
+/-- The attribute start covers exactly the value prefix of the row it names; what is handed on to
+    the value encoder is the rest of the value. -/
+theorem attrStartW_prefix (c : WCfg) (a : Attr) (v : Bytes) (st st' : WSt) (rest : Option Bytes)
+    (hvlen : v.length ≤ a.value.length) (h : attrStartW c a v st = .ok (rest, st')) :
+    v = preOf st'.curAttr ++ rest.getD [] := by
+  unfold attrStartW at h
+  cases hname : a.name with
+  | token r =>
+    simp only [hname] at h
+    cases hval : r.value with
+    | none =>
+      simp only [hval] at h
+      injection h with h; injection h with h1 h2
+      subst h1 h2
+      simp [attrTokenW_curAttr, preOf, hval]
+    | some p =>
+      simp only [hval] at h
+      split at h
+      · rename_i hpre
+        have hsplit := isPrefixOf_split p v hpre
+        split at h
+        · obtain ⟨tail, hp, h⟩ := bind_ok' h
+          injection h with h; injection h with h1 h2
+          subst h1 h2
+          rw [ptrAdd_ok hp]
+          simpa [attrTokenW_curAttr, preOf, hval] using hsplit
+        · rename_i hlen
+          injection h with h; injection h with h1 h2
+          subst h1 h2
+          have hl := congrArg List.length hsplit
+          simp only [List.length_append, List.length_drop] at hl
+          have hd : v.drop p.length = [] := List.drop_eq_nil_of_le (by omega)
+          rw [hd, List.append_nil] at hsplit
+          simpa [attrTokenW_curAttr, preOf, hval] using hsplit
+      · obtain ⟨st1, hlit, h⟩ := bind_ok' h
+        injection h with h; injection h with h1 h2
+        subst h1 h2
+        simp [attrLiteralW_curAttr c _ _ _ hlit, preOf]
+  | literal s =>
+    simp only [hname] at h
+    have hsem := attrLookup_sem c.lang (cstrOf s) v
+    cases hhit : (if s.isEmpty then AttrHit.none else attrLookup c.lang (cstrOf s) v) with
+    | none =>
+      rw [hhit] at h
+      simp only at h
+      obtain ⟨st1, hlit, h⟩ := bind_ok' h
+      injection h with h; injection h with h1 h2
+      subst h1 h2
+      simp [attrLiteralW_curAttr c _ _ _ hlit, preOf]
+    | exact r =>
+      rw [hhit] at h
+      simp only at h
+      injection h with h; injection h with h1 h2
+      subst h1 h2
+      have hl : attrLookup c.lang (cstrOf s) v = .exact r := by
+        split at hhit
+        · cases hhit
+        · exact hhit
+      simp [attrTokenW_curAttr, preOf, hsem.1 r hl]
+    | part r comp =>
+      rw [hhit] at h
+      simp only at h
+      have hl : attrLookup c.lang (cstrOf s) v = .part r comp := by
+        split at hhit
+        · cases hhit
+        · exact hhit
+      obtain ⟨hc, hpre⟩ := hsem.2 r comp hl
+      obtain ⟨tail, hp, h⟩ := bind_ok' h
+      injection h with h; injection h with h1 h2
+      subst h1 h2
+      rw [ptrAdd_ok hp, hc]
+      simpa [attrTokenW_curAttr, preOf] using (List.prefix_iff_eq_append.mp hpre).symm
 
 /-! ### Attribute values -/
 
@@ -256,8 +488,15 @@ theorem attrSpecialW_dt (c : WCfg) (na : Option (List Attr)) (s : Bytes) (st : W
     | error e => rw [hx] at h; cases h
     | ok item => rw [hx] at h; cases h
 
+theorem attrSpecialW_untyped (c : WCfg) (na : Option (List Attr)) (s : Bytes) (st : WSt)
+    (h : noTypedAttr c.lang.id = true) : attrSpecialW c na s st = .ok none := by
+  simp only [noTypedAttr, Bool.and_eq_true, Bool.not_eq_true'] at h
+  unfold attrSpecialW
+  simp only [h.1.1, h.1.2, h.2, Bool.false_eq_true, ↓reduceIte]
+  rfl
+
 /-- What the value part of an attribute is written as. -/
-structure AValsRes (c : WCfg) (st st' : WSt) (vals : List AVal) : Prop where
+structure AValsRes (c : WCfg) (s : Bytes) (st st' : WSt) (vals : List AVal) : Prop where
   out : st'.out = st.out ++ serAVals vals
   ap : ∀ ctx, st'.attrPage = (avalsText ctx st.attrPage vals).2
   tp : st'.tagPage = st.tagPage
@@ -267,16 +506,25 @@ structure AValsRes (c : WCfg) (st st' : WSt) (vals : List AVal) : Prop where
   wf : ∀ ctx, Compat c st.strtbl ctx → langOk c.lang = true → opqsAVals vals = [] →
     wfAVals ctx st.attrPage vals = true
   dt : ∀ r, st.curAttr = some r → dtRow c.lang.id r = true → vals = [] ∨ opqsAVals vals ≠ []
+  /-- what a reader whose table resolves the encoder's makes of the pieces is the value -/
+  text : ∀ ctx : Ctx, ctx.lang = c.lang → langOk c.lang = true → valSemOk c.lang = true →
+    Resolves ctx.tbl st.strtbl → opqsAVals vals = [] → (avalsText ctx st.attrPage vals).1 = s
+  /-- no typed attribute values in an untyped language -/
+  noopq : noTypedAttr c.lang.id = true → opqsAVals vals = []
 
-theorem AValsRes.nil (c : WCfg) (st : WSt) : AValsRes c st st [] :=
-  ⟨by simp [serAVals], fun _ => rfl, rfl, rfl, rfl, (by intro o h; cases h), fun _ _ _ _ => rfl, fun _ _ _ => Or.inl rfl⟩
+theorem AValsRes.nil (c : WCfg) (st : WSt) : AValsRes c [] st st [] :=
+  ⟨by simp [serAVals], fun _ => rfl, rfl, rfl, rfl, (by intro o h; cases h), fun _ _ _ _ => rfl, fun _ _ _ => Or.inl rfl,
+    fun _ _ _ _ _ _ => rfl, fun _ => rfl⟩
 
 theorem encAttrValueW_spec (c : WCfg) (na : Option (List Attr)) (s : Bytes) (st st' : WSt)
     (hs : nulFree s = true) (hlen : s.length < 2 ^ 32) (h : encAttrValueW c na s st = .ok st') :
-    ∃ vals, AValsRes c st st' vals := by
+    ∃ vals, AValsRes c s st st' vals := by
   unfold encAttrValueW at h
   split at h
-  · injection h with h; subst h; exact ⟨[], AValsRes.nil c st⟩
+  · rename_i he
+    have hse : s = [] := List.isEmpty_iff.mp he
+    subst hse
+    injection h with h; subst h; exact ⟨[], AValsRes.nil c st⟩
   · cases hsp : attrSpecialW c na s st with
     | error e => rw [hsp] at h; cases h
     | ok r =>
@@ -286,38 +534,44 @@ theorem encAttrValueW_spec (c : WCfg) (na : Option (List Attr)) (s : Bytes) (st 
         have h' : (Except.ok st2 : Except Err WSt) = .ok st' := h
         injection h' with h'; subst h'
         obtain ⟨p, rfl⟩ := attrSpecialW_some c na s st st2 hlen hsp
-        refine ⟨[.opaque p], ?_, fun _ => rfl, rfl, rfl, rfl, (by intro o ho; cases ho), ?_, ?_⟩
+        refine ⟨[.opaque p], ?_, fun _ => rfl, rfl, rfl, rfl, (by intro o ho; cases ho), ?_, ?_, ?_, ?_⟩
         · simp [serAVals, serAVal]
         · intro ctx _ _ hno; cases hno
         · intro r _ _; exact Or.inr (by simp [opqsAVals, opqsAVal])
+        · intro ctx _ _ _ _ hno; cases hno
+        · intro hu; rw [attrSpecialW_untyped c na s st hu] at hsp; cases hsp
       | none =>
         have hdt : ∀ r, st.curAttr = some r → dtRow c.lang.id r = true → False :=
           fun r h1 h2 => attrSpecialW_dt c na s st r h1 h2 hsp
         -- the generic path: value tokens, then string-table references
         have key : ∀ l2 : List VElt, (∀ e ∈ l2, VOk c st.strtbl e) → (∀ e ∈ l2, notExt e) →
-            AValsRes c st (emitVElts st l2) (avalsOf st.attrPage l2).1 := by
-          intro l2 hv hne
+            (∀ tb, Resolves tb st.strtbl → l2.flatMap (vval tb) = s) →
+            AValsRes c s st (emitVElts st l2) (avalsOf st.attrPage l2).1 := by
+          intro l2 hv hne hcat
           have he := emitVElts_attr l2 hne st
           have hf := emitVElts_frame l2 st
-          refine ⟨he.1, ?_, hf.1, hf.2.1, hf.2.2, avalsOf_refs c st.strtbl l2 hv _, ?_, ?_⟩
+          refine ⟨he.1, ?_, hf.1, hf.2.1, hf.2.2, avalsOf_refs c st.strtbl l2 hv _, ?_, ?_, ?_, fun _ => avalsOf_opqs l2 _⟩
           · intro ctx; rw [he.2, avalsOf_page]
           · intro ctx hc hl _; exact avalsOf_wf c st.strtbl ctx hc hl l2 hv hne _
           · intro r h1 h2; exact absurd (hdt r h1 h2) id
+          · intro ctx hlang hl hsem hres _
+            rw [avalsOf_text c st.strtbl ctx hlang hl hsem l2 hv hne, hcat ctx.tbl hres]
         have h0 : ∀ e ∈ [VElt.str s], VOk c st.strtbl e ∧ notExt e := by
           intro e he; simp only [List.mem_cons, List.mem_nil_iff, or_false] at he; subst he; exact ⟨hs, trivial⟩
         have hcut : CutStable (fun e => VOk c st.strtbl e ∧ notExt e) :=
           fun s i h => ⟨⟨(vok_cut c st.strtbl s i h.1).1, trivial⟩, ⟨(vok_cut c st.strtbl s i h.1).2, trivial⟩⟩
         -- pass 2 and emission, from any list of pass 1
         have pass2 : ∀ l1 : List VElt, (∀ e ∈ l1, VOk c st.strtbl e ∧ notExt e) →
+            (∀ tb, Resolves tb st.strtbl → l1.flatMap (vval tb) = s) →
             (do let l ← (if c.useStrtbl = true then splitByStrtbl st.strtbl l1 else pure l1)
-                pure (emitVElts st l) : Except Err WSt) = .ok st' → ∃ vals, AValsRes c st st' vals := by
-          intro l1 hl1ok h
+                pure (emitVElts st l) : Except Err WSt) = .ok st' → ∃ vals, AValsRes c s st st' vals := by
+          intro l1 hl1ok hcat1 h
           cases hu : c.useStrtbl with
           | false =>
             simp only [hu, Bool.false_eq_true, ↓reduceIte] at h
             have h' : (Except.ok (emitVElts st l1) : Except Err WSt) = .ok st' := h
             injection h' with h'; subst h'
-            exact ⟨_, key l1 (fun e he => (hl1ok e he).1) (fun e he => (hl1ok e he).2)⟩
+            exact ⟨_, key l1 (fun e he => (hl1ok e he).1) (fun e he => (hl1ok e he).2) hcat1⟩
           | true =>
             simp only [hu, ↓reduceIte] at h
             cases hl2 : splitByStrtbl st.strtbl l1 with
@@ -328,11 +582,15 @@ theorem encAttrValueW_spec (c : WCfg) (na : Option (List Attr)) (s : Bytes) (st 
               injection h' with h'; subst h'
               have hl2ok := splitByStrtbl_all (fun e => VOk c st.strtbl e ∧ notExt e) hcut
                 st.strtbl (fun e he => ⟨⟨e, he, rfl⟩, trivial⟩) _ _ hl1ok hl2
-              exact ⟨_, key l2 (fun e he => (hl2ok e he).1) (fun e he => (hl2ok e he).2)⟩
+              refine ⟨_, key l2 (fun e he => (hl2ok e he).1) (fun e he => (hl2ok e he).2) ?_⟩
+              intro tb hres
+              rw [splitByStrtbl_concat c st.strtbl tb hres st.strtbl (fun _ h => h) _ _
+                (fun e he => (hl1ok e he).1) hl2]
+              exact hcat1 tb hres
         cases hv : c.lang.values with
         | none =>
           rw [hv] at h
-          exact pass2 _ h0 h
+          exact pass2 _ h0 (fun tb _ => by simp [vval]) h
         | some vals =>
           rw [hv] at h
           cases hl1 : splitByValues vals [VElt.str s] with
@@ -346,7 +604,11 @@ theorem encAttrValueW_spec (c : WCfg) (na : Option (List Attr)) (s : Bytes) (st 
                 let l ← (if c.useStrtbl = true then splitByStrtbl st.strtbl l else pure l)
                 pure (emitVElts st l) : Except Err WSt)) = .ok st' := h
             rw [hl1] at h'
-            exact pass2 l1 (splitByValues_all _ hcut vals (fun r hr => ⟨⟨vals, hv, hr⟩, trivial⟩) _ _ h0 hl1) h'
+            refine pass2 l1 (splitByValues_all _ hcut vals (fun r hr => ⟨⟨vals, hv, hr⟩, trivial⟩) _ _ h0 hl1) ?_ h'
+            intro tb _
+            rw [splitByValues_concat c st.strtbl tb vals (fun r hr => ⟨vals, hv, hr⟩) _ _
+              (fun e he => (h0 e he).1) hl1]
+            simp [vval]
 
 
 /-! ### One attribute -/
@@ -362,6 +624,22 @@ theorem attrRange (r : AttrRow) (h : attrRowRange r = true) : isAttrStartTok r.t
 
 /-- The row the reader finds for a start token the encoder wrote: same page and token, and a row
     of the same table. -/
+theorem attrRow_found' (c : WCfg) (ctx : Ctx) (hlang : ctx.lang = c.lang) (attrs : List AttrRow)
+    (ha : c.lang.attrs = some attrs) (r : AttrRow) (hr : r ∈ attrs) (hp : r.page < 256) (ap : Nat) :
+    ∃ r', attrRow ctx (swPage (swFor ap r.page) ap) r.token = some r' ∧ r' ∈ attrs ∧
+      r'.token = r.token ∧ r'.page = r.page := by
+  rw [swPage_swFor, Nat.mod_eq_of_lt hp]
+  have ha' : ctx.lang.attrs = some attrs := by rw [hlang]; exact ha
+  simp only [attrRow, ha']
+  cases hf : attrs.find? (fun x => x.token == r.token && x.page == r.page) with
+  | none =>
+    have := List.find?_eq_none.mp hf r hr
+    simp at this
+  | some r' =>
+    have h1 := List.find?_some hf
+    simp only [Bool.and_eq_true, beq_iff_eq] at h1
+    exact ⟨r', rfl, List.mem_of_find?_eq_some hf, h1.1, h1.2⟩
+
 theorem attrRow_found (c : WCfg) (tbl) (ctx : Ctx) (hc : Compat c tbl ctx) (attrs : List AttrRow)
     (ha : c.lang.attrs = some attrs) (r : AttrRow) (hr : r ∈ attrs) (hp : r.page < 256) (ap : Nat) :
     ∃ r', attrRow ctx (swPage (swFor ap r.page) ap) r.token = some r' ∧ r' ∈ attrs ∧
@@ -378,34 +656,36 @@ theorem attrRow_found (c : WCfg) (tbl) (ctx : Ctx) (hc : Compat c tbl ctx) (attr
     simp only [Bool.and_eq_true, beq_iff_eq] at h1
     exact ⟨r', rfl, List.mem_of_find?_eq_some hf, h1.1, h1.2⟩
 
-theorem astartOk_wf (c : WCfg) (tbl) (ap : Nat) (as : AStart) (cur) (h : AStartOk c tbl ap as cur)
+theorem astartOk_wf (c : WCfg) (tbl) (ap : Nat) (nm) (as : AStart) (cur) (h : AStartOk c tbl ap nm as cur)
     (ctx : Ctx) (hc : Compat c tbl ctx) (hl : langOk c.lang = true) : wfAStart ctx ap as = true := by
   cases h with
-  | tok attrs r ha hr =>
+  | tok attrs r ha hr _ =>
     have hrange := attrRange r (langOk_attrs hl ha hr).1
     obtain ⟨r', hf, _⟩ := attrRow_found c tbl ctx hc attrs ha r hr hrange.2 ap
     simp only [wfAStart, wfSw_swFor, hrange.1, hf, Option.isSome_some, Bool.and_self]
   | lit off ho =>
-    obtain ⟨e, he, rfl⟩ := ho
+    obtain ⟨e, he, rfl, _⟩ := ho
     simp [wfAStart, hc.cs, hc.offs e he]
 
-theorem astartOk_refs (c : WCfg) (tbl) (ap : Nat) (as : AStart) (cur) (h : AStartOk c tbl ap as cur) :
+theorem astartOk_refs (c : WCfg) (tbl) (ap : Nat) (nm) (as : AStart) (cur) (h : AStartOk c tbl ap nm as cur) :
     ∀ off ∈ refsAStart as, ∃ e ∈ tbl, e.offset = off := by
   intro off ho
   cases h with
-  | tok attrs r ha hr => cases ho
+  | tok attrs r ha hr _ => cases ho
   | lit o hoo =>
     simp only [refsAStart, List.mem_cons, List.mem_nil_iff, or_false] at ho
-    subst ho; exact hoo
+    subst ho
+    obtain ⟨e, he, heo, _⟩ := hoo
+    exact ⟨e, he, heo⟩
 
-theorem attrValueText_ok (c : WCfg) (tbl) (ap : Nat) (as : AStart) (cur) (h : AStartOk c tbl ap as cur)
+theorem attrValueText_ok (c : WCfg) (tbl) (ap : Nat) (nm) (as : AStart) (cur) (h : AStartOk c tbl ap nm as cur)
     (ctx : Ctx) (hc : Compat c tbl ctx) (hl : langOk c.lang = true) (vals : List AVal)
     (hdt : ∀ r, cur = some r → dtRow c.lang.id r = true → vals = []) :
     (attrValueText ctx (astartName ctx ap as).1
       ((astartName ctx ap as).2.1 ++ (avalsText ctx (astartName ctx ap as).2.2 vals).1)).isSome = true := by
   cases h with
   | lit off ho => simp [astartName, attrValueText, isDatetimeAttr]
-  | tok attrs r ha hr =>
+  | tok attrs r ha hr _ =>
     have hrange := attrRange r (langOk_attrs hl ha hr).1
     obtain ⟨r', hf, hm, ht, hp⟩ := attrRow_found c tbl ctx hc attrs ha r hr hrange.2 ap
     simp only [astartName, hf, attrValueText]
@@ -420,8 +700,98 @@ theorem attrValueText_ok (c : WCfg) (tbl) (ap : Nat) (as : AStart) (cur) (h : AS
     · simp only [Bool.not_eq_true] at hd
       simp [hd]
 
-/-- What one attribute is written as. -/
-structure AttrRes (c : WCfg) (st st' : WSt) (a : Attribute) : Prop where
+/-- The first row with an attribute start's page and token carries the same value prefix. -/
+def attrSemOk (l : Lang) : Bool :=
+  match l.attrs with
+  | some attrs => attrs.all (fun r => (decAttr attrs r.page r.token).map (·.value) == some r.value)
+  | none => true
+
+/-- A reader gives an attribute start the value prefix the encoder stripped. -/
+theorem astartName_pre (c : WCfg) (tbl) (ap : Nat) (nm) (as : AStart) (cur) (h : AStartOk c tbl ap nm as cur)
+    (ctx : Ctx) (hlang : ctx.lang = c.lang) (hl : langOk c.lang = true) (hsem : attrSemOk c.lang = true) :
+    (astartName ctx ap as).2.1 = preOf cur := by
+  cases h with
+  | lit off ho => rfl
+  | tok attrs r ha hr _ =>
+    have hrange := attrRange r (langOk_attrs hl ha hr).1
+    obtain ⟨r', hf, hm, ht, hp⟩ := attrRow_found' c ctx hlang attrs ha r hr hrange.2 ap
+    simp only [astartName, hf, preOf]
+    have hs : (decAttr attrs r.page r.token).map (·.value) = some r.value := by
+      simp only [attrSemOk, ha, List.all_eq_true, beq_iff_eq] at hsem
+      exact hsem r hr
+    have hf' : attrRow ctx r.page r.token = some r' := by
+      rw [swPage_swFor, Nat.mod_eq_of_lt hrange.2] at hf; exact hf
+    have ha' : ctx.lang.attrs = some attrs := by rw [hlang]; exact ha
+    have : decAttr attrs r.page r.token = some r' := by
+      simp only [attrRow, ha'] at hf'; exact hf'
+    rw [this] at hs
+    simp only [Option.map_some, Option.some.injEq] at hs
+    rw [hs]
+
+/-- A reader that resolves strings, tokens and names the way the encoder meant them: same language,
+    a string table that contains the encoder's entries at their offsets, alias-free tables, no
+    typed attribute values. -/
+structure Rd (c : WCfg) (tbl : List StrEntry) (ctx : Ctx) : Prop where
+  lang : ctx.lang = c.lang
+  res : Resolves ctx.tbl tbl
+  ok : langOk c.lang = true
+  vs : valSemOk c.lang = true
+  as : attrSemOk c.lang = true
+  ts : tagSemOk c.lang = true
+  an : attrNameSemOk c.lang = true
+  nta : noTypedAttr c.lang.id = true
+
+theorem Rd.mono {c : WCfg} {tbl tbl' : List StrEntry} {ctx : Ctx} (h : Rd c tbl' ctx) (hp : tbl <+: tbl') :
+    Rd c tbl ctx := ⟨h.lang, h.res.mono hp, h.ok, h.vs, h.as, h.ts, h.an, h.nta⟩
+
+/-- The XML name a reader gives an attribute start is the source name. -/
+theorem astartOk_name (c : WCfg) (tbl) (ap : Nat) (nm) (as : AStart) (cur) (h : AStartOk c tbl ap nm as cur)
+    (ctx : Ctx) (hr : Rd c tbl ctx) (hnf : nulFree nm = true) : (astartName ctx ap as).1.xmlName = nm := by
+  cases h with
+  | lit off ho =>
+    obtain ⟨e, he, rfl, rfl⟩ := ho
+    simp only [astartName, AName.xmlName]
+    exact hr.res e he hnf
+  | tok attrs r ha hrm hn =>
+    have hrange := attrRange r (langOk_attrs hr.ok ha hrm).1
+    obtain ⟨r', hf, hm, ht, hp⟩ := attrRow_found' c ctx hr.lang attrs ha r hrm hrange.2 ap
+    simp only [astartName, hf, AName.xmlName]
+    have hs : (decAttr attrs r.page r.token).map (·.name) = some r.name := by
+      have := hr.an
+      simp only [attrNameSemOk, ha, List.all_eq_true, Bool.and_eq_true, beq_iff_eq] at this
+      exact (this r hrm).2
+    have hf' : attrRow ctx r.page r.token = some r' := by
+      rw [swPage_swFor, Nat.mod_eq_of_lt hrange.2] at hf; exact hf
+    have ha' : ctx.lang.attrs = some attrs := by rw [hr.lang]; exact ha
+    have : decAttr attrs r.page r.token = some r' := by
+      simp only [attrRow, ha'] at hf'; exact hf'
+    rw [this] at hs
+    simp only [Option.map_some, Option.some.injEq] at hs
+    rw [hs, hn]
+
+theorem attrValueText_plain (ctx : Ctx) (h : noTypedAttr ctx.lang.id = true) (name : AName) (raw : Bytes) :
+    attrValueText ctx name raw = some raw := by
+  unfold attrValueText
+  have : isDatetimeAttr ctx name = false := by
+    cases name with
+    | token r => exact noTypedAttr_dt _ h r
+    | literal s => rfl
+  simp [this]
+
+/-- The source view of an attribute: XML name and the value buffer the handler gets. -/
+def srcAttrView (a : Attr) : Bytes × Bytes := (a.name.cName, withNul (cstrOf a.value))
+
+theorem attrOver_nulFree (c : WCfg) (a : Attr) (attrs : List AttrRow) (hattrs : c.lang.attrs = some attrs)
+    (ha : attrOver c.lang a = true) (han : attrNameSemOk c.lang = true) : nulFree a.name.cName = true := by
+  cases hn : a.name with
+  | literal s => exact nulFree_cstrOf s
+  | token r =>
+    simp only [attrOver, hn, hattrs, Bool.and_eq_true, List.contains_iff_mem] at ha
+    simp only [attrNameSemOk, hattrs, List.all_eq_true, Bool.and_eq_true] at han
+    exact (han r ha.2).1
+
+/-- What one attribute is written as; `nm` / `v` are the source name and value (C strings). -/
+structure AttrRes (c : WCfg) (nm v : Bytes) (st st' : WSt) (a : Attribute) : Prop where
   out : st'.out = st.out ++ serAttr a
   ap : ∀ ctx, st'.attrPage = (evAttr ctx st.attrPage a).2
   tp : st'.tagPage = st.tagPage
@@ -429,10 +799,19 @@ structure AttrRes (c : WCfg) (st st' : WSt) (a : Attribute) : Prop where
   refs : ∀ off ∈ refsAttr a, ∃ e ∈ st'.strtbl, e.offset = off
   wf : ∀ ctx, Compat c st'.strtbl ctx → langOk c.lang = true → opqsAttr a = [] →
     wfAttr ctx st.attrPage a = true
+  /-- start-token prefix ++ pieces, as a reader resolves them, is the source value -/
+  value : ∀ ctx : Ctx, ctx.lang = c.lang → langOk c.lang = true → valSemOk c.lang = true →
+    attrSemOk c.lang = true → Resolves ctx.tbl st'.strtbl → opqsAttr a = [] →
+    (astartName ctx st.attrPage a.start).2.1 ++
+      (avalsText ctx (astartName ctx st.attrPage a.start).2.2 a.vals).1 = v
+  noopq : noTypedAttr c.lang.id = true → opqsAttr a = []
+  /-- what a reader reports for the attribute is the source attribute -/
+  view : ∀ ctx : Ctx, Rd c st'.strtbl ctx → nulFree nm = true →
+    attrView (evAttr ctx st.attrPage a).1 = (nm, withNul v)
 
 theorem encAttrW_spec (c : WCfg) (na : Option (List Attr)) (a : Attr) (st st' : WSt)
     (ha : attrOver c.lang a = true) (attrs : List AttrRow) (hattrs : c.lang.attrs = some attrs)
-    (h : encAttrW c na a st = .ok st') : ∃ sa, AttrRes c st st' sa := by
+    (h : encAttrW c na a st = .ok st') : ∃ sa, AttrRes c a.name.cName (cstrOf a.value) st st' sa := by
   unfold encAttrW at h
   rw [hattrs] at h
   simp only at h
@@ -447,7 +826,9 @@ theorem encAttrW_spec (c : WCfg) (na : Option (List Attr)) (a : Attr) (st st' : 
     rw [hs] at h
     obtain ⟨as, hres, hrest⟩ := attrStartW_spec c a (cstrOf a.value) st st1 rest ha (nulFree_cstrOf _) attrs hattrs hs
     -- the value part
-    have hval : ∃ st2 vals, st' = { st2 with curAttr := none } ∧ AValsRes c st1 st2 vals := by
+    have hpre := attrStartW_prefix c a (cstrOf a.value) st st1 rest
+      (by unfold cstrOf; rw [List.length_take]; omega) hs
+    have hval : ∃ st2 vals, st' = { st2 with curAttr := none } ∧ AValsRes c (rest.getD []) st1 st2 vals := by
       cases rest with
       | none =>
         have h' : (Except.ok { st1 with curAttr := none } : Except Err WSt) = .ok st' := h
@@ -469,7 +850,17 @@ theorem encAttrW_spec (c : WCfg) (na : Option (List Attr)) (a : Attr) (st st' : 
           obtain ⟨vals, hvr⟩ := encAttrValueW_spec c na s st1 st2 (hrest s rfl).1 hsl hv
           exact ⟨st2, vals, h''.symm, hvr⟩
     obtain ⟨st2, vals, rfl, hvr⟩ := hval
-    refine ⟨⟨as, vals⟩, ?_, ?_, ?_, ?_, ?_, ?_⟩
+    have hvalue : ∀ ctx : Ctx, ctx.lang = c.lang → langOk c.lang = true → valSemOk c.lang = true →
+        attrSemOk c.lang = true → Resolves ctx.tbl st2.strtbl → opqsAVals vals = [] →
+        (astartName ctx st.attrPage as).2.1 ++ (avalsText ctx (astartName ctx st.attrPage as).2.2 vals).1 =
+          cstrOf a.value := by
+      intro ctx hlang hl hvs has hrs hno
+      have hres1 : Resolves ctx.tbl st1.strtbl := by
+        have : st2.strtbl = st1.strtbl := hvr.tbl
+        intro e he; exact hrs e (by rw [this]; exact he)
+      rw [astartName_pre c _ _ _ _ _ hres.ok ctx hlang hl has, ← hres.ap ctx, hvr.text ctx hlang hl hvs hres1 hno]
+      exact hpre.symm
+    refine ⟨⟨as, vals⟩, ?_, ?_, ?_, ?_, ?_, ?_, ?_, fun hu => hvr.noopq hu, ?_⟩
     · show st2.out = _
       rw [hvr.out, hres.out, serAttr, List.append_assoc]
     · intro ctx
@@ -483,7 +874,7 @@ theorem encAttrW_spec (c : WCfg) (na : Option (List Attr)) (a : Attr) (st st' : 
       rw [hvr.tbl]
       simp only [refsAttr, List.mem_append] at ho
       rcases ho with ho | ho
-      · exact astartOk_refs c _ _ _ _ hres.ok off ho
+      · exact astartOk_refs c _ _ _ _ _ hres.ok off ho
       · exact hvr.refs off ho
     · intro ctx hc hl hno
       have hc1 : Compat c st1.strtbl ctx := by
@@ -491,18 +882,29 @@ theorem encAttrW_spec (c : WCfg) (na : Option (List Attr)) (a : Attr) (st st' : 
         exact ⟨hc.lang, hc.cs, fun e he => hc.offs e (by show e ∈ st2.strtbl; rw [this]; exact he)⟩
       simp only [opqsAttr] at hno
       simp only [wfAttr, wfPi, Bool.and_eq_true]
-      refine ⟨⟨astartOk_wf c _ _ _ _ hres.ok ctx hc1 hl, ?_⟩, ?_⟩
+      refine ⟨⟨astartOk_wf c _ _ _ _ _ hres.ok ctx hc1 hl, ?_⟩, ?_⟩
       · rw [← hres.ap ctx]; exact hvr.wf ctx hc1 hl hno
-      · apply attrValueText_ok c _ _ _ _ hres.ok ctx hc1 hl vals
+      · apply attrValueText_ok c _ _ _ _ _ hres.ok ctx hc1 hl vals
         intro r hr hd
         rcases hvr.dt r hr hd with h | h
         · exact h
         · exact absurd hno h
+    · intro ctx hlang hl hvs has hrs hno
+      exact hvalue ctx hlang hl hvs has hrs hno
+    · intro ctx hr hnf
+      have hr2 : Rd c st2.strtbl ctx := hr
+      have hr1 : Rd c st1.strtbl ctx := by
+        have : st2.strtbl = st1.strtbl := hvr.tbl
+        exact ⟨hr2.lang, fun e he => hr2.res e (by rw [this]; exact he), hr2.ok, hr2.vs, hr2.as, hr2.ts, hr2.an, hr2.nta⟩
+      have hnta : noTypedAttr ctx.lang.id = true := by rw [hr2.lang]; exact hr2.nta
+      have hraw := hvalue ctx hr2.lang hr2.ok hr2.vs hr2.as hr2.res (hvr.noopq hr2.nta)
+      simp only [attrView, evAttr, attrValueText_plain ctx hnta, Option.getD_some, hraw,
+        astartOk_name c _ _ _ _ _ hres.ok ctx hr1 hnf]
 
 
 /-! ### The attribute list -/
 
-structure AttrsRes (c : WCfg) (st st' : WSt) (as : List Attribute) : Prop where
+structure AttrsRes (c : WCfg) (l : List Attr) (st st' : WSt) (as : List Attribute) : Prop where
   out : st'.out = st.out ++ serAttrs as
   ap : ∀ ctx, st'.attrPage = (evAttrs ctx st.attrPage as).2
   tp : st'.tagPage = st.tagPage
@@ -510,10 +912,12 @@ structure AttrsRes (c : WCfg) (st st' : WSt) (as : List Attribute) : Prop where
   refs : ∀ off ∈ refsAttrs as, ∃ e ∈ st'.strtbl, e.offset = off
   wf : ∀ ctx, Compat c st'.strtbl ctx → langOk c.lang = true → opqsAttrs as = [] →
     wfAttrs ctx st.attrPage as = true
+  noopq : noTypedAttr c.lang.id = true → opqsAttrs as = []
+  view : ∀ ctx : Ctx, Rd c st'.strtbl ctx → (evAttrs ctx st.attrPage as).1.map attrView = l.map srcAttrView
 
 theorem encAttrsW_spec (c : WCfg) (na : Option (List Attr)) (attrs : List AttrRow) (hattrs : c.lang.attrs = some attrs) :
     ∀ (l : List Attr) (st st' : WSt), l.all (attrOver c.lang) = true → encAttrsW c na l st = .ok st' →
-      ∃ as, as.length = l.length ∧ AttrsRes c st st' as := by
+      ∃ as, as.length = l.length ∧ AttrsRes c l st st' as := by
   intro l
   induction l with
   | nil =>
@@ -521,7 +925,8 @@ theorem encAttrsW_spec (c : WCfg) (na : Option (List Attr)) (attrs : List AttrRo
     simp only [encAttrsW] at h
     have h' : (Except.ok st : Except Err WSt) = .ok st' := h
     injection h' with h'; subst h'
-    exact ⟨[], rfl, by simp [serAttrs], fun _ => rfl, rfl, TblExt.refl _ _, (by intro o ho; cases ho), fun _ _ _ _ => rfl⟩
+    exact ⟨[], rfl, by simp [serAttrs], fun _ => rfl, rfl, TblExt.refl _ _, (by intro o ho; cases ho), fun _ _ _ _ => rfl,
+      fun _ => rfl, fun _ _ => rfl⟩
   | cons a rest ih =>
     intro st st' hall h
     simp only [List.all_cons, Bool.and_eq_true] at hall
@@ -536,7 +941,8 @@ theorem encAttrsW_spec (c : WCfg) (na : Option (List Attr)) (attrs : List AttrRo
       have h2 : encAttrsW c na rest st1 = .ok st' := h'
       obtain ⟨sa, hsa⟩ := encAttrW_spec c na a st st1 hall.1 attrs hattrs h1
       obtain ⟨as, hlen, has⟩ := ih st1 st' hall.2 h2
-      refine ⟨sa :: as, by simp [hlen], ?_, ?_, ?_, hsa.tbl.trans has.tbl, ?_, ?_⟩
+      refine ⟨sa :: as, by simp [hlen], ?_, ?_, ?_, hsa.tbl.trans has.tbl, ?_, ?_,
+        fun hu => by simp only [opqsAttrs, hsa.noopq hu, has.noopq hu, List.append_nil], ?_⟩
       · rw [has.out, hsa.out, serAttrs, List.append_assoc]
       · intro ctx; rw [evAttrs_cons_page, has.ap ctx, hsa.ap ctx]
       · rw [has.tp, hsa.tp]
@@ -552,6 +958,13 @@ theorem encAttrsW_spec (c : WCfg) (na : Option (List Attr)) (attrs : List AttrRo
         refine ⟨hsa.wf ctx (hc.mono has.tbl.pre) hl hno.1, ?_⟩
         rw [← hsa.ap ctx]
         exact has.wf ctx hc hl hno.2
+      · intro ctx hr
+        have hv := hsa.view ctx (hr.mono has.tbl.pre) (attrOver_nulFree c a attrs hattrs hall.1 hr.an)
+        have hrest := has.view ctx hr
+        rw [hsa.ap ctx] at hrest
+        show attrView (evAttr ctx st.attrPage sa).1 :: (evAttrs ctx (evAttr ctx st.attrPage sa).2 as).1.map attrView = _
+        rw [hv, hrest]
+        rfl
 
 theorem encAttrsW_noattrs (c : WCfg) (na : Option (List Attr)) (hattrs : c.lang.attrs = none) :
     ∀ (l : List Attr) (st : WSt), encAttrsW c na l st = .ok st := by
@@ -567,17 +980,17 @@ theorem encAttrsW_noattrs (c : WCfg) (na : Option (List Attr)) (hattrs : c.lang.
 
 /-! ### `parse_element` -/
 
-theorem TagOk.mono {c : WCfg} {tbl tbl' : List StrEntry} (hp : tbl <+: tbl') {tp sw tag} (h : TagOk c tbl tp sw tag) :
-    TagOk c tbl' tp sw tag := by
+theorem TagOk.mono {c : WCfg} {tbl tbl' : List StrEntry} (hp : tbl <+: tbl') {tp nm sw tag}
+    (h : TagOk c tbl tp nm sw tag) : TagOk c tbl' tp nm sw tag := by
   cases h with
-  | tok tags r ht hr => exact .tok tags r ht hr
+  | tok tags r ht hr hn => exact .tok tags r ht hr hn
   | lit off ho => obtain ⟨e, he, ho⟩ := ho; exact .lit off ⟨e, hp.subset he, ho⟩
 
-theorem tagOk_wf (c : WCfg) (tbl) (tp : Nat) (sw tag) (h : TagOk c tbl tp sw tag)
+theorem tagOk_wf (c : WCfg) (tbl) (tp : Nat) (nm) (sw tag) (h : TagOk c tbl tp nm sw tag)
     (ctx : Ctx) (hc : Compat c tbl ctx) (hl : langOk c.lang = true) :
     wfSw sw = true ∧ wfTag ctx (swPage sw tp) tag = true := by
   cases h with
-  | tok tags r ht hr =>
+  | tok tags r ht hr _ =>
     have hrange := tagRange r (langOk_tags hl ht hr)
     refine ⟨wfSw_swFor _ _, ?_⟩
     rw [swPage_swFor, Nat.mod_eq_of_lt hrange.2.2]
@@ -587,35 +1000,84 @@ theorem tagOk_wf (c : WCfg) (tbl) (tp : Nat) (sw tag) (h : TagOk c tbl tp sw tag
     rw [List.find?_isSome]
     exact ⟨r, hr, by simp⟩
   | lit off ho =>
-    obtain ⟨e, he, rfl⟩ := ho
+    obtain ⟨e, he, rfl, _⟩ := ho
     exact ⟨rfl, by simp [wfTag, hc.cs, hc.offs e he]⟩
 
-theorem tagOk_refs (c : WCfg) (tbl) (tp : Nat) (sw tag) (h : TagOk c tbl tp sw tag) :
+theorem tagOk_refs (c : WCfg) (tbl) (tp : Nat) (nm) (sw tag) (h : TagOk c tbl tp nm sw tag) :
     ∀ off ∈ refsTag tag, ∃ e ∈ tbl, e.offset = off := by
   intro off ho
   cases h with
-  | tok tags r ht hr => cases ho
+  | tok tags r ht hr _ => cases ho
   | lit o hoo =>
     simp only [refsTag, List.mem_cons, List.mem_nil_iff, or_false] at ho
-    subst ho; exact hoo
+    subst ho
+    obtain ⟨e, he, heo, _⟩ := hoo
+    exact ⟨e, he, heo⟩
 
 /-- What `parse_element` writes: `[switchPage] stag [1*attribute END]`. -/
-structure StartRes (c : WCfg) (st st' : WSt) (hasContent : Bool) (sw : Option Nat) (tag : Tag)
-    (as : List Attribute) : Prop where
+structure StartRes (c : WCfg) (nm : Bytes) (src : List (Bytes × Bytes)) (st st' : WSt) (hasContent : Bool)
+    (sw : Option Nat) (tag : Tag) (as : List Attribute) : Prop where
   out : st'.out = st.out ++ (serSw sw ++ (serTag (tagFlags (!as.isEmpty) hasContent) tag ++
     (if as.isEmpty then [] else serAttrs as ++ [0x01])))
   tp : st'.tagPage = swPage sw st.tagPage
   ap : ∀ ctx, st'.attrPage = (evAttrs ctx st.attrPage as).2
   tbl : TblExt c st st'
-  tag : TagOk c st'.strtbl st.tagPage sw tag
+  tag : TagOk c st'.strtbl st.tagPage nm sw tag
   refs : ∀ off ∈ refsAttrs as, ∃ e ∈ st'.strtbl, e.offset = off
   wf : ∀ ctx, Compat c st'.strtbl ctx → langOk c.lang = true → opqsAttrs as = [] →
     wfAttrs ctx st.attrPage as = true
+  noopq : noTypedAttr c.lang.id = true → opqsAttrs as = []
+  attrsView : ∀ ctx : Ctx, Rd c st'.strtbl ctx → (evAttrs ctx st.attrPage as).1.map attrView = src
+
+/-- The attributes a reader is expected to report: all of them, or none for a language without
+    attribute table. -/
+def srcAttrsView (c : WCfg) (attrs : List Attr) : List (Bytes × Bytes) :=
+  if c.lang.attrs.isSome then attrs.map srcAttrView else []
+
+/-- The XML name a reader gives a tag is the source name. -/
+theorem tagOk_name (c : WCfg) (tbl) (tp : Nat) (nm) (sw tag) (h : TagOk c tbl tp nm sw tag)
+    (ctx : Ctx) (hr : Rd c tbl ctx) (hnf : nulFree nm = true) :
+    (tagName ctx (swPage sw tp) tag).1.xmlName = nm := by
+  cases h with
+  | tok tags r ht hrm hn =>
+    have hrange := tagRange r (langOk_tags hr.ok ht hrm)
+    rw [swPage_swFor, Nat.mod_eq_of_lt hrange.2.2]
+    have ht' : ctx.lang.tags = some tags := by rw [hr.lang]; exact ht
+    have hs : (decTag tags r.page r.token).map (·.name) = some r.name := by
+      have := hr.ts
+      simp only [tagSemOk, ht, List.all_eq_true, Bool.and_eq_true, beq_iff_eq] at this
+      exact (this r hrm).2
+    simp only [tagName, tagRow, ht']
+    have : List.find? (fun x => x.token == r.token && x.page == r.page) tags = decTag tags r.page r.token := rfl
+    rw [this]
+    cases hd : decTag tags r.page r.token with
+    | none => rw [hd] at hs; cases hs
+    | some d =>
+      rw [hd] at hs
+      simp only [Option.map_some, Option.some.injEq] at hs
+      simp only [Name.xmlName, hs, hn]
+  | lit off ho =>
+    obtain ⟨e, he, rfl, rfl⟩ := ho
+    simp only [tagName, Name.xmlName]
+    exact hr.res e he hnf
+
+theorem nameOver_nulFree (c : WCfg) (name : Name) (hn : nameOver c.lang name = true) (hts : tagSemOk c.lang = true) :
+    nulFree name.cName = true := by
+  cases name with
+  | literal s => exact nulFree_cstrOf s
+  | token r =>
+    simp only [nameOver] at hn
+    cases ht : c.lang.tags with
+    | none => simp [ht] at hn
+    | some tags =>
+      simp only [ht, List.contains_iff_mem] at hn
+      simp only [tagSemOk, ht, List.all_eq_true, Bool.and_eq_true] at hts
+      exact (hts r hn).1
 
 theorem encElementStartW_spec (c : WCfg) (name : Name) (attrs : List Attr) (hasContent : Bool) (st st' : WSt)
     (hl : langOk c.lang = true) (hn : nameOver c.lang name = true) (ha : attrs.all (attrOver c.lang) = true)
     (h : encElementStartW c (some attrs) name attrs hasContent st = .ok st') :
-    ∃ sw tag as, StartRes c st st' hasContent sw tag as := by
+    ∃ sw tag as, StartRes c name.cName (srcAttrsView c attrs) st st' hasContent sw tag as := by
   unfold encElementStartW at h
   simp only at h
   cases ht : encTagW c name hasContent (!attrs.isEmpty && c.lang.attrs.isSome) st with
@@ -638,7 +1100,8 @@ theorem encElementStartW_spec (c : WCfg) (name : Name) (attrs : List Attr) (hasC
       simp only [hat, Option.isSome_none, Bool.and_false, Bool.false_eq_true, ↓reduceIte] at h2 hout
       have h3 : (Except.ok st1 : Except Err WSt) = .ok st' := h2
       injection h3 with h3; subst h3
-      refine ⟨sw, tag, [], ⟨?_, htp, fun _ => hap, htbl, htag, (by intro o ho; cases ho), fun _ _ _ _ => rfl⟩⟩
+      refine ⟨sw, tag, [], ⟨?_, htp, fun _ => hap, htbl, htag, (by intro o ho; cases ho), fun _ _ _ _ => rfl, fun _ => rfl,
+        fun _ _ => by simp [srcAttrsView, hat, evAttrs_nil]⟩⟩
       simpa using hout
     | some atbl =>
       cases ha2 : encAttrsW c (some attrs) attrs st1 with
@@ -652,7 +1115,7 @@ theorem encElementStartW_spec (c : WCfg) (name : Name) (attrs : List Attr) (hasC
         have hemp : as.isEmpty = attrs.isEmpty := by
           cases as <;> cases attrs <;> simp_all
         simp only [hat, Option.isSome_some, Bool.and_true] at h3 hout
-        refine ⟨sw, tag, as, ⟨?_, ?_, ?_, ?_, ?_, ?_, ?_⟩⟩
+        refine ⟨sw, tag, as, ⟨?_, ?_, ?_, ?_, ?_, ?_, ?_, has.noopq, ?_⟩⟩
         · rw [← h3, hemp]
           cases hae : attrs.isEmpty with
           | true =>
@@ -678,5 +1141,12 @@ theorem encElementStartW_spec (c : WCfg) (name : Name) (attrs : List Attr) (hasC
           rw [this]; exact has.refs
         · have : st'.strtbl = st2.strtbl := by rw [← h3]; split <;> rfl
           rw [this, ← hap]; exact has.wf
+        · have : st'.strtbl = st2.strtbl := by rw [← h3]; split <;> rfl
+          intro ctx hr
+          rw [this] at hr
+          have := has.view ctx hr
+          rw [hap] at this
+          simp only [srcAttrsView, hat, Option.isSome_some, ↓reduceIte]
+          exact this
 
 end Wbxml.Lemmas.EncW
